@@ -475,3 +475,50 @@ def contracts():
     for c in extra:
         c.prop = PROP
     return _c19_base2() + extra
+
+
+# ---------------------------------------------------------------------------------------------
+# concrete probe: every random number generator of numbergen, at the corner values of its own
+# parameters, is a function of (name, seed, time) when time-dependent — whatever was drawn before
+# ---------------------------------------------------------------------------------------------
+CORNERS_REPLAY = '''import sys, os, itertools
+sys.path.insert(0, os.environ.get('PYVC_REPO', '/repo'))
+import param, numbergen as ng
+bad = []
+CASES = [('UniformRandom', dict(lbound=0.0, ubound=1.0)), ('UniformRandom', dict(lbound=2.0, ubound=2.0)),
+         ('UniformRandomOffset', dict(mean=0.0, range=0.0)), ('UniformRandomOffset', dict(mean=1.0, range=2.0)),
+         ('UniformRandomInt', dict(lbound=3, ubound=3)), ('UniformRandomInt', dict(lbound=0, ubound=10)),
+         ('Choice', dict(choices=[7])), ('Choice', dict(choices=[1, 2, 3])),
+         ('NormalRandom', dict(mu=0.0, sigma=0.0)), ('NormalRandom', dict(mu=1.0, sigma=2.0)),
+         ('VonMisesRandom', dict(mu=0.0, kappa=0.0)), ('VonMisesRandom', dict(mu=1.0, kappa=1.0)), ('VonMisesRandom', dict(mu=0.0, kappa=1e-9))]
+tm = param.Time(time_type=int)
+param.Dynamic.time_dependent = True
+param.Dynamic.time_fn = tm
+ng.TimeAware.time_dependent = True
+ng.TimeAware.time_fn = tm
+for cname, kw in CASES:
+    cls = getattr(ng, cname, None)
+    if cls is None:
+        continue
+    def gen():
+        return cls(name='g', seed=11, **kw)
+    if True:
+        ref = {}
+        g = gen()
+        for now in (0, 1, 2, 3):
+            tm(now); ref[now] = g()
+        for order in ((3, 1, 1, 0, 2, 3), (2, 2, 0), (1, 3)):
+            h = gen()
+            for now in order:
+                tm(now)
+                for rep in range(2):
+                    got = h()
+                    if got != ref[now]:
+                        bad.append('%s(%s): at time %r, visited in order %r (draw %d at that time): %r; a first visit in order 0,1,2,3 gave %r'
+                                   % (cname, kw, now, order, rep, got, ref[now]))
+if bad:
+    print('REPRODUCED: ' + bad[0]); sys.exit(1)
+print('NOT-REPRODUCED'); sys.exit(0)
+'''
+
+PROBES = globals().get("PROBES", []) + [("numbergen generators at the corner values of their parameters are functions of time", CORNERS_REPLAY)]
